@@ -73,6 +73,7 @@ type Cfg struct {
 	NilSessionState  bool     // the session store answers a nil state for requests without a stored session
 	Localizer        string   // "" none | "empty": a catalogue without any entry (answers "" for every key, as the interface prescribes for missing keys) | "partial": entries for about half of the keys
 	decoy            bool     // this World is the second instance created next to another one
+	PreserveFields   []string // Modules.RegisterPreserveFields
 	PersistArbitrary bool     // the user type stores every key PutArbitrary hands it (only sensible with an explicit RegWhitelist)
 }
 
@@ -291,6 +292,7 @@ func New(cfg Cfg, salt string) (w *World, err error) {
 
 	ab.Config.Modules.BCryptCost = 4
 	ab.Config.Modules.MailNoGoroutine = true
+	ab.Config.Modules.RegisterPreserveFields = append([]string(nil), cfg.PreserveFields...)
 	ab.Config.Modules.RecoverLoginAfterRecovery = cfg.RecoverLogin
 	ab.Config.Modules.TwoFactorEmailAuthRequired = cfg.TwoFAEmail
 	ab.Config.Modules.TOTP2FAIssuer = "verif"
